@@ -32,24 +32,27 @@
 (***************************************************************************)
 EXTENDS Integers, FiniteSets, Sequences, TLC, Json
 
-CONSTANTS Workers, NTasks, MaxTimeouts, Clamp
+CONSTANTS Workers, NTasks, MaxTimeouts, Clamp,
+          MaxErrors,       \* non-retriable application errors that may be injected
+          ReleaseOnError   \* the error leaves the loop through a finally that releases the workers (the repair)
 
 VARIABLES nxt,        \* next task the iterator will hand out (NTasks + 1: it will raise StopIteration)
           exhausted,  \* the loop has seen StopIteration
-          st,         \* [Tasks -> "new" | "retry" | "open" | "ok" | "timeout" | "done"]: "open" = its call is in flight;
+          st,         \* [Tasks -> "new" | "retry" | "open" | "ok" | "timeout" | "error" | "done"]: "open" = its call is in flight;
                       \*   "ok" / "timeout" = the call has finished, the loop has not looked yet (still in running_tasks)
           on,         \* [Tasks -> worker of the current / last call]
           acquired,   \* workers this pool holds
           preferred,  \* workers whose last call succeeded
           delivered,  \* [Tasks -> number of times the task's result was yielded]
           timeouts,   \* time-outs injected so far
-          pc,         \* "submit" | "check" | "release" | "final" | "done" | "crash"
+          pc,         \* "submit" | "check" | "release" | "final" | "done" | "crash" | "raised" (a task's error reached the caller)
+          errors,     \* application errors injected so far
           hist
-vars == <<nxt, exhausted, st, on, acquired, preferred, delivered, timeouts, pc, hist>>
+vars == <<nxt, exhausted, st, on, acquired, preferred, delivered, timeouts, pc, errors, hist>>
 
 Tasks == 1..NTasks
 NoW == "none"
-InList == {t \in Tasks : st[t] \in {"open", "ok", "timeout"}}       \* running_tasks
+InList == {t \in Tasks : st[t] \in {"open", "ok", "timeout", "error"}}       \* running_tasks
 Retry == {t \in Tasks : st[t] = "retry"}
 Busy == {on[t] : t \in {x \in Tasks : st[x] = "open"}}                \* a worker is idle again as soon as its call has finished
 Idle == Workers \ Busy
@@ -58,7 +61,7 @@ Work == Retry # {} \/ ~exhausted
 
 Init ==
   /\ nxt = 1 /\ exhausted = FALSE /\ st = [t \in Tasks |-> "new"] /\ on = [t \in Tasks |-> NoW]
-  /\ acquired = {} /\ preferred = {} /\ delivered = [t \in Tasks |-> 0] /\ timeouts = 0 /\ pc = "submit" /\ hist = <<>>
+  /\ acquired = {} /\ preferred = {} /\ delivered = [t \in Tasks |-> 0] /\ timeouts = 0 /\ pc = "submit" /\ errors = 0 /\ hist = <<>>
 
 \* next_idle_worker(workers, maybe_acquire=True): preferred workers first
 IdleChoice == IF Idle \cap preferred # {} THEN Idle \cap preferred ELSE Idle
@@ -77,25 +80,38 @@ Submit(w) ==
           ELSE /\ exhausted' = TRUE                              \* the worker stays acquired and idle
                /\ hist' = Append(hist, [ev |-> "exhausted", t |-> 0, again |-> FALSE])
                /\ UNCHANGED <<nxt, st, on>>
-  /\ UNCHANGED <<preferred, delivered, timeouts, pc>>
+  /\ UNCHANGED <<preferred, delivered, timeouts, pc, errors>>
 
 EndSubmit ==
   /\ pc = "submit" /\ (~Work \/ Idle = {})
   /\ pc' = "check"
-  /\ UNCHANGED <<nxt, exhausted, st, on, acquired, preferred, delivered, timeouts, hist>>
+  /\ UNCHANGED <<nxt, exhausted, st, on, acquired, preferred, delivered, timeouts, errors, hist>>
 
 Finish(t, o) ==
   /\ pc \in {"submit", "check", "release"} /\ st[t] = "open"
   /\ o = "timeout" => timeouts < MaxTimeouts
+  /\ o = "error" => errors < MaxErrors
   /\ st' = [st EXCEPT ![t] = o]
   /\ timeouts' = IF o = "timeout" THEN timeouts + 1 ELSE timeouts
-  /\ hist' = Append(hist, [ev |-> "finish", t |-> t, again |-> o = "timeout"])
+  /\ errors' = IF o = "error" THEN errors + 1 ELSE errors
+  /\ hist' = Append(hist, [ev |-> IF o = "error" THEN "fail" ELSE "finish", t |-> t, again |-> o = "timeout"])
   /\ UNCHANGED <<nxt, exhausted, on, acquired, preferred, delivered, pc>>
 
 \* the for loop over running_tasks, in list order (= order of submission; two finished calls of one worker are
 \* consumed oldest first, so the later outcome decides whether the worker is preferred)
+\* a finished call that carries a non-retriable error: `raise exc` out of the loop (results of calls listed before it
+\* have been yielded).  Without a finally the workers stay acquired.
+CheckRaises ==
+  /\ pc = "check" /\ \E t \in Tasks : st[t] = "error"
+  /\ \E early \in SUBSET {t \in Tasks : st[t] = "ok"} :
+       /\ delivered' = [t \in Tasks |-> delivered[t] + IF t \in early THEN 1 ELSE 0]
+       /\ st' = [t \in Tasks |-> IF t \in early THEN "done" ELSE st[t]]
+  /\ pc' = "raised"
+  /\ acquired' = IF ReleaseOnError THEN {} ELSE acquired
+  /\ UNCHANGED <<nxt, exhausted, on, preferred, timeouts, errors, hist>>
+
 Check ==
-  /\ pc = "check"
+  /\ pc = "check" /\ ~\E t \in Tasks : st[t] = "error"
   /\ LET oks == {t \in Tasks : st[t] = "ok"}
          tos == {t \in Tasks : st[t] = "timeout"} IN
      /\ delivered' = [t \in Tasks |-> delivered[t] + IF t \in oks THEN 1 ELSE 0]
@@ -111,7 +127,7 @@ Check ==
           /\ preferred' = pref
      /\ st' = [t \in Tasks |-> IF t \in oks THEN "done" ELSE IF t \in tos THEN "retry" ELSE st[t]]
   /\ pc' = "release"
-  /\ UNCHANGED <<nxt, exhausted, on, acquired, timeouts, hist>>
+  /\ UNCHANGED <<nxt, exhausted, on, acquired, timeouts, errors, hist>>
 
 Again == IF ~exhausted \/ Retry # {} \/ InList # {} THEN "submit" ELSE "final"
 
@@ -128,14 +144,14 @@ Release ==
                       /\ acquired' = acquired \cap (Running \cup reserved)
                       /\ pc' = Again
      ELSE /\ pc' = Again /\ UNCHANGED acquired
-  /\ UNCHANGED <<nxt, exhausted, st, on, preferred, delivered, timeouts, hist>>
+  /\ UNCHANGED <<nxt, exhausted, st, on, preferred, delivered, timeouts, errors, hist>>
 
 Final ==
   /\ pc = "final" /\ acquired' = {} /\ pc' = "done"
-  /\ UNCHANGED <<nxt, exhausted, st, on, preferred, delivered, timeouts, hist>>
+  /\ UNCHANGED <<nxt, exhausted, st, on, preferred, delivered, timeouts, errors, hist>>
 
-Next == (\E w \in Workers : Submit(w)) \/ (\E t \in Tasks, o \in {"ok", "timeout"} : Finish(t, o))
-        \/ EndSubmit \/ Check \/ Release \/ Final
+Next == (\E w \in Workers : Submit(w)) \/ (\E t \in Tasks, o \in {"ok", "timeout", "error"} : Finish(t, o))
+        \/ EndSubmit \/ Check \/ CheckRaises \/ Release \/ Final
 Spec == Init /\ [][Next]_vars
 Fair == Spec /\ WF_vars(Next) /\ \A t \in Tasks : WF_vars(Finish(t, "ok"))
 
@@ -143,11 +159,13 @@ Fair == Spec /\ WF_vars(Next) /\ \A t \in Tasks : WF_vars(Finish(t, "ok"))
 NoCrash == pc # "crash"
 AtMostOnce == \A t \in Tasks : delivered[t] <= 1
 ExactlyOnceAtEnd == pc = "done" => \A t \in Tasks : delivered[t] = 1
-RunningAreHeld == Busy \subseteq acquired
-AllReleased == pc = "done" => acquired = {}
-Terminates == <>(pc \in {"done", "crash"})
+\* a non-retriable error surfaces: the run never ends normally with a result missing
+ErrorSurfaces == (\E t \in Tasks : st[t] = "error") => pc # "done"
+RunningAreHeld == pc # "raised" => Busy \subseteq acquired        \* (calls still open when an error surfaces are abandoned)
+AllReleased == pc \in {"done", "raised"} => acquired = {}
+Terminates == <>(pc \in {"done", "crash", "raised"})
 
-View == <<nxt, exhausted, st, on, acquired, preferred, delivered, timeouts, pc>>
-Emit == pc \in {"done", "crash"} => PrintT(<<"H", ToJson([workers |-> Cardinality(Workers), tasks |-> NTasks,
+View == <<nxt, exhausted, st, on, acquired, preferred, delivered, timeouts, pc, errors>>
+Emit == pc \in {"done", "crash", "raised"} => PrintT(<<"H", ToJson([workers |-> Cardinality(Workers), tasks |-> NTasks,
                                                             end |-> pc, events |-> hist])>>)
 =============================================================================
